@@ -31,6 +31,11 @@ CONFIGS = [("file", "%{cmdline}"), ("file", ALL_DS), ("file", ERR_DS), ("file", 
 
 def ini_for(out, okind, fmt):
     o = out.encode()
+    if okind == "errlog-nodir":
+        # every call raises an internal error (message longer than the limit) with error logging on, and the configured output cannot
+        # deliver (directory missing): whatever the error handler falls back to runs in every call, in the parent's threads and in the child
+        return gen.render_ini([(b"output", b"file:" + o + b"/no-such-dir/log"), (b"message_format", b"z" * 300 + b" " + fmt.encode()),
+                               (b"error_logging", b"yes"), (b"log_message_max_length", b"255")])
     val = {"file": b"file:" + o + b"/log", "devlog": b"devlog", "stdout": b"stdout", "devnull": b"devnull", "socket": b"socket:" + o + b"/sock"}[okind]
     return gen.render_ini([(b"output", val), (b"message_format", fmt.encode())])
 
@@ -192,6 +197,7 @@ PRE_MS = 200
 DELAY_FMT = "%{datetime}|%{login}|%{username}|%{eusername}|%{tty_username}|%{group}|%{hostname}|%{domain}|%{ipaddr}|%{cwd}|%{tty}|%{cgroup:1}|%{systemd_unit_name}|%{rpname}|%{cmdline}"
 # (output, format, warm-up call first, depth, number of further threads making the same call at the same time)
 DELAY_SHAPES = [("file", DELAY_FMT, False, 1, 0), ("file", DELAY_FMT, True, 1, 0), ("devlog", "%{cmdline}", False, 1, 0), ("file", DELAY_FMT, True, 1, 1),
+                ("errlog-nodir", "%{cmdline}", True, 1, 0),
                 ("stdout", "%{username} %{cmdline}", False, 2, 0), ("socket", "%{datetime} %{cmdline}", True, 1, 2)]
 PIDLINE = __import__("re").compile(r"^(\d+)\s+([a-z_0-9]+)\((.*)$")
 
@@ -299,7 +305,7 @@ def delay_worker(args):
 
 def delay_phase(ctx, builds):
     import trace
-    shapes = DELAY_SHAPES[:4] if ctx.quick else DELAY_SHAPES
+    shapes = DELAY_SHAPES[:5] if ctx.quick else DELAY_SHAPES
     per_shape = []
     os_ = trace.OneShot(ctx.run, builds["ts-plain"], "delaydry")
     for shape in shapes:
